@@ -243,6 +243,10 @@ def json__verifyEnforcedCanonicalJSON : List String := [
   "return nil"
 ]
 
+def json_type_EventJSONs : List String := [
+  "type EventJSONs []spec.RawJSON"
+]
+
 def signing__ListKeyIDs : List String := [
   "func func(signingName string, message []byte) ([]KeyID, error)",
   "var members map[string]json.RawMessage",
@@ -402,6 +406,10 @@ def signing__checkStrictString : List String := [
   "return nil"
 ]
 
+def signing_type_KeyID : List String := [
+  "type KeyID string"
+]
+
 def spec_base64_Base64Bytes_Decode : List String := [
   "func func(str string) error",
   "var err error",
@@ -458,6 +466,10 @@ def spec_base64_Base64Bytes_Value : List String := [
   "return b64.Encode(), nil"
 ]
 
-def functions : List String := ["json.go:EventJSONs.TrustedEvents", "json.go:EventJSONs.UntrustedEvents", "json.go:.CanonicalJSON", "json.go:.CanonicalJSONAssumeValid", "json.go:.CompactJSON", "json.go:.EnforcedCanonicalJSON", "json.go:.NewEventJSONsFromEvents", "json.go:.SortJSON", "json.go:.compactUnicodeEscape", "json.go:.isNegativeZeroLiteral", "json.go:.noVerifyCanonicalJSON", "json.go:.readHexDigits", "json.go:.sortJSONArray", "json.go:.sortJSONObject", "json.go:.sortJSONValue", "json.go:.verifyEnforcedCanonicalJSON", "signing.go:.ListKeyIDs", "signing.go:.SignJSON", "signing.go:.VerifyJSON", "signing.go:.checkStrictJSON", "signing.go:.checkStrictString", "spec/base64.go:Base64Bytes.Decode", "spec/base64.go:Base64Bytes.Encode", "spec/base64.go:Base64Bytes.MarshalJSON", "spec/base64.go:Base64Bytes.MarshalYAML", "spec/base64.go:Base64Bytes.Scan", "spec/base64.go:Base64Bytes.UnmarshalJSON", "spec/base64.go:Base64Bytes.UnmarshalYAML", "spec/base64.go:Base64Bytes.Value"]
+def spec_base64_type_Base64Bytes : List String := [
+  "type Base64Bytes []byte"
+]
+
+def functions : List String := ["json.go:EventJSONs.TrustedEvents", "json.go:EventJSONs.UntrustedEvents", "json.go:.CanonicalJSON", "json.go:.CanonicalJSONAssumeValid", "json.go:.CompactJSON", "json.go:.EnforcedCanonicalJSON", "json.go:.NewEventJSONsFromEvents", "json.go:.SortJSON", "json.go:.compactUnicodeEscape", "json.go:.isNegativeZeroLiteral", "json.go:.noVerifyCanonicalJSON", "json.go:.readHexDigits", "json.go:.sortJSONArray", "json.go:.sortJSONObject", "json.go:.sortJSONValue", "json.go:.verifyEnforcedCanonicalJSON", "json.go:type EventJSONs", "signing.go:.ListKeyIDs", "signing.go:.SignJSON", "signing.go:.VerifyJSON", "signing.go:.checkStrictJSON", "signing.go:.checkStrictString", "signing.go:type KeyID", "spec/base64.go:Base64Bytes.Decode", "spec/base64.go:Base64Bytes.Encode", "spec/base64.go:Base64Bytes.MarshalJSON", "spec/base64.go:Base64Bytes.MarshalYAML", "spec/base64.go:Base64Bytes.Scan", "spec/base64.go:Base64Bytes.UnmarshalJSON", "spec/base64.go:Base64Bytes.UnmarshalYAML", "spec/base64.go:Base64Bytes.Value", "spec/base64.go:type Base64Bytes"]
 
 end VPins.C02
